@@ -48,7 +48,7 @@ AMBIENT = {
 AMBIENT_PREFIX = ("random.", "numpy.random.", "secrets.")
 AMBIENT_ATTR = {"os.environ", "sys.argv", "sys.flags"}
 GLOBAL_SETTERS = {
-    "attrs.validators.set_disabled", "attr.validators.set_disabled", "attrs.set_run_validators", "attr.set_run_validators", "gc.disable", "gc.enable", "sys.setswitchinterval", "os.environ.update", "os.environ.setdefault",
+    "attrs.validators.set_disabled", "attr.validators.set_disabled", "attrs.validators.disabled", "attr.validators.disabled", "attrs.set_run_validators", "attr.set_run_validators", "gc.disable", "gc.enable", "sys.setswitchinterval", "os.environ.update", "os.environ.setdefault",
     "numpy.seterr", "numpy.set_printoptions", "numpy.seterrcall", "warnings.simplefilter", "warnings.filterwarnings", "warnings.resetwarnings",
     "os.chdir", "os.umask", "os.putenv", "locale.setlocale", "sys.setrecursionlimit", "numpy.random.seed", "random.seed",
     "sys.settrace", "sys.setprofile", "decimal.setcontext", "signal.signal", "builtins.setattr@module",
@@ -169,6 +169,20 @@ def run(ctx):
 
     # ------------------------------------------------------------------ R3
     ctx.rule("R3", "no mutable default arguments, no memoisation", "state carried from one call to the next")
+    # a module-level (or default-argument) one-shot iterator is state as well: whoever iterates it first uses it up
+    ONE_SHOT = ("zip", "map", "filter", "iter", "reversed", "enumerate")
+    nmod = 0
+    for mod in prog.modules.values():
+        if not mod.name.startswith("iodata.") or ".test" in mod.name:
+            continue
+        nmod += 1
+        for st in mod.tree.body:
+            val = st.value if isinstance(st, (ast.Assign, ast.AnnAssign)) else None
+            if val is None:
+                continue
+            if isinstance(val, ast.GeneratorExp) or (isinstance(val, ast.Call) and isinstance(val.func, ast.Name) and val.func.id in ONE_SHOT):
+                tgt = st.targets[0] if isinstance(st, ast.Assign) else st.target
+                ctx.violate("R3", f"module-level name `{src_of(tgt)}` is bound to a one-shot iterator (`{src_of(val)[:50]}`): the first call that iterates it uses it up, every later call sees it empty", relpath=mod.relpath, function=f"{mod.name}.{src_of(tgt)}", node=st, construct=f"module-level one-shot iterator {src_of(tgt)}")
     nparams = 0
     for f in pkg:
         node = f.node
